@@ -9,6 +9,8 @@ From Coq Require Import List NArith ZArith Lia Bool Arith.
 From Coq Require Import Init.Byte.
 From FFS Require Import Base.Res Base.Bytes Keystore.Json Keystore.Prims Keystore.Model Keystore.Spec
   Keystore.ReadTypes Keystore.TotalProofs Keystore.TotalProofs2 Keystore.TotalProofs4 Keystore.TotalProofs3.
+(* round 3: required, not imported (Keystore/Toy.v has its own [toy]); names below are qualified *)
+From FFS Require Keystore.ProofsRead Keystore.Toy Keystore.TotalProofs5.
 Import ListNotations.
 
 (* 1. Reading any byte string with any password never panics. *)
@@ -123,3 +125,41 @@ Theorem C15_malformed_rejected_cipher_refuted :
     read_wallet_tree P t pw = Ok w.
 Proof. exact malformed_rejected_cipher_refuted. Qed.
 Print Assumptions C15_malformed_rejected_cipher_refuted.
+
+(* 5. (round 3) Exactness on strictly formed documents.  For primitives satisfying the laws the C07
+      theorems use ([crypto_laws]: KDF output lengths, the 32-byte block behind scrypt's slice, CTR
+      involution; [uuid_accepts_text]: the UUID parser accepts RFC-4122 text), and a document that is
+      strictly formed ([v3_wellformed]), has no case-variant / duplicate member names ([unambiguous]) and
+      whose number literals fit float64 ([nums_ok]): the read path returns a wallet with key k exactly when
+      the independent specification (Keystore/Spec.v, without its cipher test — the code makes none, known
+      finding C15/cipher-ignored) derives k from the same document and password; and it reports an error
+      exactly when the specification derives no key at all.  So on these documents there is neither a
+      foreign key nor a spurious rejection. *)
+Theorem C15_read_iff_spec :
+  forall (P : prims), crypto_laws P -> uuid_accepts_text P ->
+  forall (t : json) (pw k : bytes),
+    v3_wellformed t = true -> ProofsRead.unambiguous t = true -> ProofsRead.nums_ok P t = true ->
+    ((exists w, read_wallet_tree P t pw = Ok w /\ PrivateKey w = k) <-> v3_decrypt_gen false P t pw = Ok k).
+Proof. exact TotalProofs5.read_iff_spec. Qed.
+Print Assumptions C15_read_iff_spec.
+
+Theorem C15_read_err_iff_spec :
+  forall (P : prims), crypto_laws P -> uuid_accepts_text P ->
+  forall (t : json) (pw : bytes),
+    v3_wellformed t = true -> ProofsRead.unambiguous t = true -> ProofsRead.nums_ok P t = true ->
+    ((exists e, read_wallet_tree P t pw = Err e) <-> (forall k, v3_decrypt_gen false P t pw <> Ok k)).
+Proof. exact TotalProofs5.read_err_iff_spec. Qed.
+Print Assumptions C15_read_err_iff_spec.
+
+Example C15_read_iff_spec_nonvacuous :
+  crypto_laws Toy.toy /\ uuid_accepts_text Toy.toy /\
+  match TotalProofs5.iff_doc with
+  | Some t =>
+      v3_wellformed t = true /\ ProofsRead.unambiguous t = true /\ ProofsRead.nums_ok Toy.toy t = true /\
+      v3_decrypt_gen false Toy.toy t [x70; x77] = Ok [x01; x02; x03] /\
+      (match read_wallet_tree Toy.toy t [x70; x77] with Ok w => PrivateKey w | _ => [] end) = [x01; x02; x03] /\
+      (match read_wallet_tree Toy.toy t [x70] with Err _ => true | _ => false end) = true /\
+      (match v3_decrypt_gen false Toy.toy t [x70] with Ok _ => false | _ => true end) = true
+  | None => False
+  end.
+Proof. exact TotalProofs5.read_iff_spec_nonvacuous. Qed.
